@@ -1924,6 +1924,7 @@ func (self *Aof) RewriteAofFile(startReWrite bool) error {
 		}
 		self.aofFile = nil
 	}
+	verifPoint(210)
 
 	aofFileIndex := self.aofFileIndex + 1
 	if aofFileIndex == 0 {
@@ -1939,6 +1940,7 @@ func (self *Aof) RewriteAofFile(startReWrite bool) error {
 	self.aofFileIndex = aofFileIndex
 	self.aofFileOffset = 0
 	self.slock.Log().Infof("Aof create current file %s.%d", "append.aof", aofFileIndex)
+	verifPoint(211)
 
 	if startReWrite {
 		go self.rewriteAofFiles()
@@ -1995,6 +1997,7 @@ func (self *Aof) rewriteAofFiles() {
 		return
 	}
 
+	verifPoint(200)
 	self.clearRewriteAofFiles(aofFilenames)
 	totalAofSize := len(aofFilenames)*12 - len(aofFiles)*12
 	for _, aofFile := range aofFiles {
@@ -2101,17 +2104,21 @@ func (self *Aof) clearRewriteAofFiles(aofFilenames []string) {
 			self.slock.Log().Errorf("Aof rewrite remove file error %s %v", aofFilename, err)
 			continue
 		}
+		verifPoint(201)
 		_ = os.Remove(filepath.Join(self.dataDir, fmt.Sprintf("%s.%s", aofFilename, "dat")))
+		verifPoint(202)
 		self.slock.Log().Infof("Aof rewrite remove file %s", aofFilename)
 	}
 	err := os.Rename(filepath.Join(self.dataDir, "rewrite.aof.tmp"), filepath.Join(self.dataDir, "rewrite.aof"))
 	if err != nil {
 		self.slock.Log().Errorf("Aof rewrite rename rewrite.aof.tmp to rewrite.aof error %v", err)
 	}
+	verifPoint(203)
 	err = os.Rename(filepath.Join(self.dataDir, "rewrite.aof.tmp.dat"), filepath.Join(self.dataDir, "rewrite.aof.dat"))
 	if err != nil {
 		self.slock.Log().Errorf("Aof rewrite rename rewrite.aof.tmp.dat to rewrite.aof.dat error %v", err)
 	}
+	verifPoint(204)
 }
 
 func (self *Aof) clearAofFiles() error {
